@@ -30,8 +30,54 @@ def student_raises(n):
     return ()
 
 
+PRIMITIVES = ('_start_mocking', '_stop_mocking', '_start_patches', '_stop_patches', '_capture_exception',
+              '_execute', '_execute_with_timeout')
+
+
 def build_exec_cfg(fn):
-    return CFG(fn, raises=student_raises)
+    cls = getattr(fn, '_parent', None)
+    return CFG(fn, raises=student_raises, flatten=(cls, PRIMITIVES) if isinstance(cls, ast.ClassDef) else None)
+
+
+def execute_scenarios(ctx, sym, mod):
+    """Sandbox._execute executed abstractly for every raise point (compile, tracer enter, exec, tracer exit, none) x
+    exception class. Yields (where, kind, observations)."""
+    from .. import symexec
+    from ..fdeval import Obj, Raised
+    fn = mod.func('Sandbox._execute')
+    ctx.analysed_function(mod, fn)
+    kinds = ['ValueError', 'SyntaxError', 'RecursionError', 'SystemExit', 'KeyboardInterrupt', 'GeneratorExit']
+    for where in ('none', 'compile', 'tracer-enter', 'exec', 'tracer-exit'):
+        for kind in (kinds if where != 'none' else [None]):
+            rec = symexec.Recorder()
+            exc = Obj('student-exception', exc_kind=kind)
+            exc_info = symexec.marker('sys.exc_info()')
+
+            def boom(name, ret=None):
+                def f(*a, **k):
+                    rec.events.append((name, a, k))
+                    if where == name:
+                        raise Raised(kind, payload=exc)
+                    return ret
+                return f
+            cm = Obj('tracer-context')
+            symexec.method(cm, '__enter__', boom('tracer-enter', ret=cm))
+            symexec.method(cm, '__exit__', lambda *a: (boom('tracer-exit')(), False)[1])
+            trace = Obj('trace')
+            symexec.method(trace, 'as_filename', lambda *a, **k: cm)
+            me = symexec.self_obj(mod, 'Sandbox', allowed_time=1, _next_context_id=7, target=None, exception=None,
+                                  report=Obj('report', submission=Obj('submission')), _context=[], data={},
+                                  trace=trace)
+            for name in ('clear_exception', '_start_mocking', '_stop_mocking', '_capture_exception',
+                         '_execute_with_timeout', '_stop_patches'):
+                symexec.method(me, name, rec.stub(name))
+            fd = symexec.new_fd(sym, mod, calls={
+                'compile': boom('compile', ret=symexec.marker('code-object')), 'exec': boom('exec'),
+                'SandboxContext': rec.stub('SandboxContext', fn=lambda *a, **k: Obj('context')),
+                'sys.exc_info': lambda: exc_info})
+            value, raised = symexec.run(fd, fn, ['x = 1', 'answer.py', 'run', False], bound_self=me,
+                                        what='Sandbox._execute')
+            yield where, kind, dict(rec=rec, value=value, raised=raised, me=me, exc=exc, exc_info=exc_info)
 
 
 def acquire_functions(mod, cls='Sandbox', acquire='_start_mocking'):
@@ -43,10 +89,23 @@ def acquire_functions(mod, cls='Sandbox', acquire='_start_mocking'):
     return out
 
 
-def r1_release_on_all_exits(ctx, mod):
+def r1_release_on_all_exits(ctx, mod, sym=None):
     ctx.rule('R1', "in every function that calls _start_mocking, every CFG path from that call to the normal exit "
                    "or to the exceptional exit under any exception atom passes through _stop_mocking "
                    "(exec/compile/tracer enter+exit raise every atom; _capture_exception raises Exception atoms)")
+    # behavioural companion: _execute executed abstractly for every raise point x exception class
+    n_sc = 0
+    for where, kind, ob in execute_scenarios(ctx, sym, mod):
+        n_sc += 1
+        rec = ob['rec']
+        starts, stops = len(rec.named('_start_mocking')), len(rec.named('_stop_mocking'))
+        ctx.check(starts == 1 and stops == 1, 'R1', '_execute[%s raises %s]:released-once' % (where, kind), mod,
+                  mod.func('Sandbox._execute'),
+                  "with %s raised at %s, _start_mocking ran %d time(s) and _stop_mocking %d time(s)" % (
+                      kind, where, starts, stops),
+                  "student code ending with %s leaves sys.stdout / sys.modules / time.sleep patched (or unpatches "
+                  "twice, popping an outer execution's buffer)" % kind, function='Sandbox._execute')
+    ctx.floor('R1', '_execute scenarios', n_sc, 20)
     fns = acquire_functions(mod)
     ctx.floor('R1', 'functions acquiring the mocks', len(fns), 1)
     for fn in fns:
@@ -167,7 +226,7 @@ def writers_of(mod, cls, attr):
     return out
 
 
-def r3_release_complete_and_owned(ctx, mod):
+def r3_release_complete_and_owned(ctx, mod, sym):
     ctx.rule('R3', "_stop_mocking = _stop_patches() + exactly one _current_stdout.pop(); _stop_patches pops one "
                    "tuple and stops every element; the two stacks are pushed/popped only by the paired helpers; "
                    "_stop_patches may be called only from _stop_mocking (a direct caller leaves the stdout frame)")
@@ -177,36 +236,87 @@ def r3_release_complete_and_owned(ctx, mod):
     stm = mod.func('Sandbox._start_mocking')
     for f in (sm, sp, stp, stm):
         ctx.analysed_function(mod, f)
-    n_sp = [c for c in calls(sm) if is_self_call(c, '_stop_patches')]
-    pops = [c for c in method_calls(sm, 'pop') if is_self_attr(c.func.value, '_current_stdout')]
-    ctx.check(len(n_sp) == 1 and len(pops) == 1 and not any(isinstance(n, (ast.If, ast.Return, ast.Try))
-                                                           for n in body_walk(sm)),
-              'R3', '_stop_mocking:shape', mod, sm,
-              "_stop_mocking does not unconditionally call _stop_patches() once and pop _current_stdout once",
-              "after an execution one of the two stacks keeps a frame")
-    # _stop_patches: pop one, stop all
-    pops = [c for c in method_calls(sp, 'pop') if is_self_attr(c.func.value, '_current_patches')]
-    loops = [n for n in body_walk(sp) if isinstance(n, ast.For)]
-    ok = len(pops) == 1 and len(loops) == 1
-    if ok:
-        loop = loops[0]
-        stops = [c for c in method_calls(loop, 'stop')]
-        early = [n for n in walk_local(loop) if isinstance(n, (ast.Break, ast.Return, ast.Continue, ast.If, ast.Try))]
-        ok = len(stops) == 1 and not early and isinstance(loop.target, ast.Name) \
-            and norm(stops[0].func.value) == loop.target.id and not loop.orelse
-        # the loop must iterate over the popped tuple
-        src = [n for n in body_walk(sp) if isinstance(n, ast.Assign) and n.value in pops]
-        ok = ok and bool(src) and norm(loop.iter) == norm(src[0].targets[0])
-    ctx.check(ok, 'R3', '_stop_patches:stops-all', mod, sp,
-              "_stop_patches does not pop exactly one patch tuple and call .stop() on every element",
-              "a patch of the popped group (sys.modules / sys.stdout / time.sleep) stays active")
-    # _start_patches: append + start each
-    apps = [c for c in method_calls(stp, 'append') if is_self_attr(c.func.value, '_current_patches')]
-    loops = [n for n in body_walk(stp) if isinstance(n, ast.For)]
-    ok = len(apps) == 1 and len(loops) == 1 and len(list(method_calls(loops[0], 'start'))) == 1
+    from .. import symexec
+    from ..fdeval import Obj
+
+    def patch_obj(name, rec):
+        o = Obj(name)
+        symexec.method(o, 'start', rec.stub(name + '.start'))
+        symexec.method(o, 'stop', rec.stub(name + '.stop'))
+        return o
+    current = {'ident': 1}
+    thread_calls = {'threading.get_ident': lambda: current['ident'], 'get_ident': lambda: current['ident'],
+                    'threading.current_thread': lambda: Obj('thread', ident=current['ident'],
+                                                            name='thread-%d' % current['ident']),
+                    'current_thread': lambda: Obj('thread', ident=current['ident'], name='thread-%d' % current['ident'])}
+    # the stack is built by _start_patches itself (whatever representation it uses), then _stop_patches must stop
+    # exactly the patches of the newest group and pop that group; with an empty stack nothing happens
+    for depth in (2, 1, 0):
+        rec = symexec.Recorder()
+        p1, p2, p3 = patch_obj('p1', rec), patch_obj('p2', rec), patch_obj('p3', rec)
+        groups = [(p1,), (p2, p3)][2 - depth:] if depth else []
+        me = symexec.self_obj(mod, 'Sandbox', _current_patches=[], _current_stdout=[])
+        fd = symexec.new_fd(sym, mod, calls=thread_calls)
+        for g_ in groups:
+            symexec.run(fd, stp, list(g_), bound_self=me, what='Sandbox._start_patches')
+        del rec.events[:]
+        _, raised = symexec.run(fd, sp, [], bound_self=me, what='Sandbox._stop_patches')
+        want_events = sorted(x._name + '.stop' for x in (groups[-1] if groups else ()))
+        got_events = sorted(e[0] for e in rec.events)
+        ok = raised is None and got_events == want_events and \
+            len(me.attrs['_current_patches']) == max(0, len(groups) - 1)
+        ctx.check(ok, 'R3', '_stop_patches:stops-all[depth=%d]' % depth, mod, sp,
+                  "with %d group(s) on the stack _stop_patches performs %s and leaves %d group(s)%s; it must stop "
+                  "exactly the patches of the newest group (%s) and pop that group" % (
+                      depth, got_events, len(me.attrs['_current_patches']),
+                      '' if raised is None else ' (raises %s)' % raised.kind, want_events),
+                  "a patch of the popped group (sys.modules / sys.stdout / time.sleep) stays active, or an outer "
+                  "execution's patches are stopped")
+    # the timeout arm runs in the grader thread while the patches were started in the student thread: a group
+    # started under one thread identity must be stopped by _stop_patches called under another
+    rec = symexec.Recorder()
+    p1, p2 = patch_obj('p1', rec), patch_obj('p2', rec)
+    me = symexec.self_obj(mod, 'Sandbox', _current_patches=[], _current_stdout=[])
+    current['ident'] = 1
+    fd = symexec.new_fd(sym, mod, calls=thread_calls)
+    _, raised1 = symexec.run(fd, stp, [p1, p2], bound_self=me, what='Sandbox._start_patches')
+    current['ident'] = 2
+    _, raised2 = symexec.run(fd, sp, [], bound_self=me, what='Sandbox._stop_patches')
+    stops = sorted(e[0] for e in rec.events if e[0].endswith('.stop'))
+    ctx.check(raised1 is None and raised2 is None and stops == ['p1.stop', 'p2.stop'] and
+              not me.attrs['_current_patches'], 'R3', '_stop_patches:other-thread', mod, sp,
+              "patches started in one thread are not stopped by _stop_patches called from another thread (stopped: "
+              "%s, stack left: %d)" % (stops, len(me.attrs['_current_patches'])),
+              "a threaded run that times out: the grader's arm cannot release what the abandoned student thread "
+              "started, so sys.stdout / sys.modules / time.sleep stay patched")
+    # _start_patches: records the group, then starts every patch once
+    rec = symexec.Recorder()
+    p1, p2 = patch_obj('p1', rec), patch_obj('p2', rec)
+    older = (patch_obj('older', rec),)
+    me = symexec.self_obj(mod, 'Sandbox', _current_patches=[older], _current_stdout=[])
+    fd = symexec.new_fd(sym, mod, calls=thread_calls)
+    _, raised = symexec.run(fd, stp, [p1, p2], bound_self=me, what='Sandbox._start_patches')
+    st_ = me.attrs['_current_patches']
+    ok = raised is None and sorted(e[0] for e in rec.events) == ['p1.start', 'p2.start'] and len(st_) == 2 and \
+        st_[0] is older
     ctx.check(ok, 'R3', '_start_patches:tracks-all', mod, stp,
-              "_start_patches does not record the group before starting each patch",
+              "_start_patches does not record the group (on top of the older ones) and start each patch once",
               "a started patch is not tracked and therefore never stopped")
+    # _stop_mocking: exactly one _stop_patches and one buffer popped, on every path
+    rec = symexec.Recorder()
+    older_buf, buf = Obj('older-buffer'), Obj('buffer')
+    symexec.method(buf, 'getvalue', lambda: 'text')
+    symexec.method(older_buf, 'getvalue', lambda: 'older text')
+    me = symexec.self_obj(mod, 'Sandbox', _current_stdout=[older_buf, buf], _current_patches=[])
+    symexec.method(me, '_stop_patches', rec.stub('_stop_patches'))
+    symexec.method(me, 'append_output', rec.stub('append_output'))
+    fd = symexec.new_fd(sym, mod)
+    _, raised = symexec.run(fd, sm, [Obj('context')], bound_self=me, what='Sandbox._stop_mocking')
+    ok = raised is None and len(rec.named('_stop_patches')) == 1 and me.attrs['_current_stdout'] == [older_buf]
+    ctx.check(ok, 'R3', '_stop_mocking:shape', mod, sm,
+              "_stop_mocking does not call _stop_patches() once and pop exactly this execution's buffer "
+              "(%d call(s), stack %r)" % (len(rec.named('_stop_patches')), me.attrs['_current_stdout']),
+              "after an execution one of the two stacks keeps a frame")
     # ownership of the stacks
     allowed = {'_current_patches': {'append': {'Sandbox._start_patches'}, 'pop': {'Sandbox._stop_patches'},
                                     'assign': {'Sandbox.__init__'}},
@@ -265,13 +375,13 @@ def r4_restorable(ctx, mod):
         ctx.check(needed in targets, 'R4', 'patched:' + needed, mod, sp_calls[0],
                   "%s is no longer borrowed through a tracked patch" % needed,
                   "student code observes/changes the real %s" % needed)
-    # the stdout patch installs the buffer just pushed
-    for a in sp_calls[0].args:
-        if isinstance(a, ast.Call) and a.args and isinstance(a.args[0], ast.Constant) and a.args[0].value == 'sys.stdout':
-            ok = len(a.args) >= 2 and norm(a.args[1]) == 'self._current_stdout[-1]'
-            ctx.check(ok, 'R4', 'patched:sys.stdout=top-of-stack', mod, a,
-                      "sys.stdout is not patched with the buffer pushed for this execution",
-                      "output of this execution lands in another buffer")
+    # the stdout patch installs the very buffer pushed for this execution: decided by executing _start_mocking
+    # abstractly with marker objects (shared with C15.R2)
+    from .c15 import start_mocking_observations
+    for tag, ob in start_mocking_observations(ctx, Symbols(ctx.repo), mod):
+        ctx.check(ob['patched_with_pushed'], 'R4', 'patched:sys.stdout=top-of-stack' + tag, mod, stm,
+                  "sys.stdout is not patched with the buffer pushed for this execution",
+                  "output of this execution lands in another buffer")
     import_ok = ctx.repo.module(SANDBOX)
     patch_b = Symbols(ctx.repo).lookup(SANDBOX, 'patch')
     ctx.check(patch_b is not None and patch_b.kind == 'importfrom' and patch_b.target == 'unittest.mock',
@@ -433,10 +543,10 @@ def r6_private_builtins(ctx, mod):
 def run(ctx):
     sym = Symbols(ctx.repo)
     mod = ctx.repo.module(SANDBOX)
-    r1_release_on_all_exits(ctx, mod)
+    r1_release_on_all_exits(ctx, mod, sym)
     r1b_timeout_arm_releases(ctx, mod)
     r2_release_before_recording(ctx, mod)
-    r3_release_complete_and_owned(ctx, mod)
+    r3_release_complete_and_owned(ctx, mod, sym)
     r4_restorable(ctx, mod)
     r5_tracers(ctx, sym)
     r6_private_builtins(ctx, mod)
